@@ -233,7 +233,7 @@ func (ii *InstInfo) addCodecContracts(p *Program, cs *ContractSet, prop string) 
 			ct := newContract(f, prop)
 			ct.RegionMerge = true
 			ct.Requires = append(ct.Requires, cl("requires", "", recv+" != nil"))
-			ct.Modifies = append(ct.Modifies, cl("modifies", "", "all"))
+			ct.Modifies = append(ct.Modifies, cl("modifies", "", "*"+recv))
 			n := 0
 			for i, fl := range fields {
 				if fl.Def == nil {
@@ -253,8 +253,24 @@ func (ii *InstInfo) addCodecContracts(p *Program, cs *ContractSet, prop string) 
 				ct.Ensures = append(ct.Ensures, cl("ensures", "arity", "err == nil ==> "+strings.Join(terms, " + ")+" == 1"))
 				n++
 			}
+			// presence of required fields (existential invariants over the slice of wire
+			// fields, addFromWirePresence) was built and dropped: the obligations took
+			// 20-120 s each; FromWire presence is not an obligation
 			if n > 0 {
 				add(ct)
+			}
+		}
+	}
+	for _, f := range all {
+		if f.Signature.Recv() == nil && strings.HasSuffix(f.Name(), "_Read") && strings.HasPrefix(f.Name(), "_") {
+			if _, have := cs.ByFunc[f.String()]; !have {
+				rc := newContract(f, prop)
+				rc.Props = nil
+				rc.Trusted = true
+				// A-READ-PURE: a read helper builds a fresh value and leaves everything else alone
+				rc.Modifies = append(rc.Modifies, cl("modifies", "", "nothing"))
+				cs.ByFunc[f.String()] = rc
+				cs.Order = append(cs.Order, rc)
 			}
 		}
 	}
@@ -923,4 +939,39 @@ func (ii *InstInfo) addDefaultCtorContracts(cs *ContractSet, prop string, all []
 		}
 		add(ct)
 	}
+}
+
+// addFromWirePresence: schema-evolution clauses of FromWire (C05, also C01): success
+// implies that every required field occurred with its id and declared wire
+// type; the <name>IsSet flags are located by name; the wire value is not
+// modified (the read helpers are assumed to leave wire values alone: A-READ-PURE).
+func (ii *InstInfo) addFromWirePresence(f *ssa.Function, fields []schemaField, ct *Contract) int {
+	locals := map[string]bool{}
+	for _, b := range f.Blocks {
+		for _, in := range b.Instrs {
+			if a, ok := in.(*ssa.Alloc); ok && strings.HasSuffix(a.Comment, "IsSet") {
+				locals[a.Comment] = true
+			}
+		}
+	}
+	if len(findLoops(f)) != 1 || len(f.Params) != 2 {
+		return 0
+	}
+	w := f.Params[1].Name()
+	F := w + ".tstruct.Fields"
+	n := 0
+	ct.LoopInv[1] = append(ct.LoopInv[1], cl("invariant", "input", fmt.Sprintf("ridx >= -1 && ridx < len(%s)", F)))
+	for _, fl := range fields {
+		if !fl.Required {
+			continue
+		}
+		match := fmt.Sprintf("%s[j].ID == %d && %s[j].Value.typ == %d", F, fl.ID, F, fl.Code)
+		v := fl.Name + "IsSet"
+		ct.Ensures = append(ct.Ensures, cl("ensures", "required_"+fl.Name, fmt.Sprintf("err == nil ==> exists(j, 0, len(%s), %s)", F, match)))
+		n++
+		if locals[v] {
+			ct.LoopInv[1] = append(ct.LoopInv[1], cl("invariant", "seen_"+fl.Name, fmt.Sprintf("%s <==> exists(j, 0, ridx + 1, %s)", v, match)))
+		}
+	}
+	return n
 }
